@@ -4,6 +4,7 @@ import RactorModel.Lemmas.FactorySlotInst
 import RactorModel.Lemmas.FactoryHandler
 import RactorModel.Lemmas.FactoryStop
 import RactorModel.Lemmas.FactoryActors
+import RactorModel.Lemmas.FactoryNoPanic
 
 /-!
 # C13 — Factory: every job meets exactly one fate, never runs twice
@@ -164,6 +165,25 @@ theorem stopped_workers_hold_nothing_partial (c : CaseCfg) (steps : List Step) (
       (∀ p ∈ w.pool, p.actor ≠ aid) → a.heldJobs = [] ∧ a.stopReq = true := by
   intro w hs aid a g hal hn
   exact ((j_always c steps hns).core hs).free aid a g hal hn
+
+/-! ## The factory never reaches its `panic!` -/
+
+/-- (`RouteResult::Backlog` with a targeted worker, `try_route_next_active_job`: `panic!`, which would kill the
+factory with everything it has queued) For every configuration — five routers, both queues, with and without a
+rate limiter — and EVERY sequence of operations, the model never takes that branch: no `panicked` event in any
+history, so the ghost fate `dropped` of that branch never occurs either and conservation speaks about real fates
+while the factory runs. Proof: whatever `choose_target_worker` names for the head of the queue, the second
+consultation inside `route_message` (with that pick as the hint) finds a worker of the pool, for each router
+(`Factory.second_choice`); for round-robin this needs the F9 fix. -/
+theorem never_panics (c : CaseCfg) (steps : List Step) : Ev.panicked ∉ ((init c).runSteps steps).env.log :=
+  never_panics_run c steps
+
+/-- the step behind it, for ANY state (reachable or not): routing the job with the router's own pick as
+the hint never answers `Backlog` -/
+theorem targeted_route_never_backlogs (w : W) (j : Job) (hint : Option Nat) (worker : Nat) (w1 : W)
+    (hc : w.chooseTargetWorker j hint = (some worker, w1)) (q : List Job) :
+    (W.routeMessage { w1 with queue := q } j (some worker)).1 ≠ .backlog :=
+  routeMessage_after_choice w j hint worker w1 hc q
 
 /-! ### Non-vacuity: a concrete run (queuer, one worker): job 1 handled, job 2 running -/
 def exCase : CaseCfg :=
@@ -338,6 +358,8 @@ end C13
 #print axioms C13.one_job_per_death_partial
 #print axioms C13.one_job_lost_per_death_partial
 #print axioms C13.stopped_workers_hold_nothing_partial
+#print axioms C13.never_panics
+#print axioms C13.targeted_route_never_backlogs
 #print axioms C13.die_loses_only_held
 #print axioms C13.dispatchJob_to_dead_keeps_job
 #print axioms C13.handler_sync
